@@ -54,6 +54,7 @@ type Frame struct {
 	top     *Frame
 	modRegions []modRegion
 	groups  []*Term // sync.Groups created in this frame (must be joined at every return)
+	groupPC []*Term // path condition at their creation
 }
 
 type retRec struct {
@@ -203,7 +204,16 @@ func wfBound(alloc *Term, t *Term, typ types.Type) *Term {
 		return Ge(t, Int(0))
 	}
 	switch u := typ.Underlying().(type) {
-	case *types.Pointer, *types.Map, *types.Chan:
+	case *types.Pointer:
+		base := And(Ge(t, Int(0)), Lt(t, st.alloc))
+		if n, ok := types.Unalias(u.Elem()).(*types.Named); ok && n.Obj().Pkg() != nil && isRepoPkg(n.Obj().Pkg().Path()) {
+			if su, ok := n.Underlying().(*types.Struct); ok && su.NumFields() > 0 && n.TypeArgs().Len() == 0 {
+				// distinct live objects of different types never share an address
+				return And(base, Implies(Not(Eq(t, Int(0))), Eq(Select(rtypeArr(), t), typeTag(u))))
+			}
+		}
+		return base
+	case *types.Map, *types.Chan:
 		return And(Ge(t, Int(0)), Lt(t, st.alloc))
 	case *types.Slice:
 		return And(Ge(sArr(t), Int(0)), Lt(sArr(t), st.alloc), Ge(sOff(t), Int(0)), Ge(sLen(t), Int(0)), Le(sLen(t), sCap(t)),
@@ -226,6 +236,8 @@ func wfBound(alloc *Term, t *Term, typ types.Type) *Term {
 	}
 	return True
 }
+
+func rtypeArr() *Term { return Const("rtype", arraySort("Int", "Int")) }
 
 func (x *Exec) freshVal(st *State, name string, typ types.Type) Value {
 	if tup, ok := typ.(*types.Tuple); ok {
@@ -536,7 +548,14 @@ func (x *Exec) enterLoop(fr *Frame, b *ssa.BasicBlock, loop *LoopInfo, edges []e
 		switch {
 		case strings.HasPrefix(k, "ghost:"):
 			g := strings.TrimPrefix(k, "ghost:")
-			st.ghost[g] = Fresh("G_"+g+"_loop", ghostSorts[g])
+			ng := Fresh("G_"+g+"_loop", ghostSorts[g])
+			if freshOnlyGhost[g] {
+				// sound only for identities created before the function under verification was entered:
+				// the function itself may update the groups it created before the loop (invariants say how)
+				q := BoundVar("q_fg", "Int")
+				x.assume(st, Forall([]*Term{q}, [][]*Term{{Select(ng, q)}}, Implies(Lt(q, fr.top.entry.alloc), Eq(Select(ng, q), Select(fr.top.entry.G(g), q)))))
+			}
+			st.ghost[g] = ng
 		case k == "alloc":
 		default:
 			st.heap[k] = freshHeap(st, k, "loop")
@@ -798,7 +817,7 @@ func (x *Exec) doReturn(fr *Frame, st *State, ret *ssa.Return) {
 		}
 	}
 	for i, g := range fr.groups {
-		x.oblige(st, "join", fmt.Sprintf("group%d", i+1), fmt.Sprintf("%sret%d", framePrefix(fr), fr.info.Returns[ret]), Eq(gSel(st, "pending", g), Int(0)),
+		x.oblige(st, "join", fmt.Sprintf("group%d", i+1), fmt.Sprintf("%sret%d", framePrefix(fr), fr.info.Returns[ret]), Implies(fr.groupPC[i], Eq(gSel(st, "pending", g), Int(0))),
 			"every function started on a sync.Group created here has been waited for when the function returns")
 	}
 	fr.rets = append(fr.rets, retRec{st: st, val: val, ord: fr.info.Returns[ret]})
@@ -972,6 +991,9 @@ func (x *Exec) doAlloc(st *State, elemT types.Type, local string) Value {
 		su := elemT.Underlying().(*types.Struct)
 		for i := 0; i < su.NumFields(); i++ {
 			x.writeLV(st, x.fieldLV(Value{T: r, Local: local}, elemT, i), zeroTerm(su.Field(i).Type()))
+		}
+		if f := wfBound(Add(r, Int(1)), r, types.NewPointer(elemT)); f != True {
+			x.assume(st, f)
 		}
 		return Value{T: r, Local: local}
 	}
@@ -1490,11 +1512,7 @@ func (x *Exec) frameInv(fr *Frame, st *State, k string) *Term {
 				continue
 			}
 			if reg.Single != nil {
-				c := Eq(ref, reg.Single.Ref)
-				if reg.Single.Idx != nil && idx != nil {
-					c = And(c, Eq(idx, reg.Single.Idx))
-				}
-				ds = append(ds, c)
+				ds = append(ds, singleIn(reg, ref, idx))
 			} else {
 				ds = append(ds, reg.In(ref, idx))
 			}
